@@ -3,7 +3,7 @@
    These are the executable forms of the history-level statements of C07-C10. *)
 From Coq Require Import String.
 From Coq Require Import List NArith ZArith Bool.
-From Verif Require Import GoStr GoNum GoHeader Sx Sha1 Tables Route Forward Serve Wire Range Meta Fresh Key Cache SpecC10 SpecC15 Monitors.
+From Verif Require Import GoStr GoNum GoHeader Sx Sha1 Tables Route Forward Serve Wire Range Meta Fresh Key Cache SpecC01 SpecC10 SpecC15 Monitors.
 Import ListNotations.
 Open Scope Z_scope.
 
@@ -103,7 +103,7 @@ Definition is_storable_status (s : Z) : bool := (s =? 200) || ((cacheable_err_lo
 (* headers a hit may legitimately differ in from the fill *)
 Definition replay_exempt (rule : option rule) (k : str) : bool :=
   let lk := to_lower k in
-  existsb (str_eqb lk) [bytes "age"; bytes "richie-edge-cache"; bytes "etag"; bytes "date"; bytes "content-length"; bytes "transfer-encoding"; bytes "connection"]
+  existsb (str_eqb lk) [bytes "age"; bytes "richie-edge-cache"; bytes "date"; bytes "content-length"; bytes "transfer-encoding"; bytes "connection"]
   || match rule with
      | Some r => existsb (fun kv => str_eqb (to_lower (fst kv)) lk) (r_resp_hdrs r)
      | None => false
@@ -207,6 +207,7 @@ Definition judge (p : str) (sfx : option str) (rules : list rule) (expires : lis
           else if negb (str_eqb (cobs_body o) (se_body e)) then verdict false "a hit replays a different body than was stored"
           else if negb (forallb (fun kv => replay_exempt rule (fst kv)
                                            || ((cacheable_err_lo <=? se_status e) && (se_status e <=? cacheable_err_hi) && str_eqb (to_lower (fst kv)) (bytes "cache-control"))
+                                           || (str_eqb (to_lower (fst kv)) (bytes "etag") && strs_eqb (hvalues (cobs_hdrs o) (fst kv)) (map (add_etag_suffix sfx) (firstn 1 (snd kv))))
                                            || strs_eqb (hvalues (cobs_hdrs o) (fst kv)) (snd kv)) (se_hdrs e))
           then verdict_kf false "a hit replays different header values than were stored" kf
           else if negb (forallb (fun kv => replay_exempt rule (fst kv) || hhas (se_hdrs e) (fst kv)
@@ -224,6 +225,19 @@ Definition judge (p : str) (sfx : option str) (rules : list rule) (expires : lis
         else v_ok
       | None => v_ok
       end in
+  (* a must-not-cache answer may carry a marker header (X-Session): its value must not reach the disk either *)
+  let v10c :=
+      match lr with
+      | Some r =>
+        let marks := hvalues (rs_hdrs r) (bytes "X-Session") in
+        if must_not_cache_spec strips_auth q r
+           && existsb (fun mk => nonempty mk && existsb (fun f => contains (sx_str (sx_nth 1 f)) mk) (cobs_disk o)) marks
+        then verdict false "header fields of a response that must not be cached were written to the cache"
+        else v_ok
+      | None => v_ok
+      end in
+  let v10d := if from_cache && existsb (fun mk => nonempty mk && existsb (fun kv => existsb (fun v => str_eqb v mk) (snd kv)) (cobs_hdrs o)) (w_forbidden w)
+              then verdict false "header fields of a response that must not be cached were served to a later request" else v_ok in
   let v10b := if from_cache && existsb (str_eqb (cobs_body o)) (w_forbidden w) && nonempty (cobs_body o)
               then verdict false "a response that must not be cached was served to a later request" else v_ok in
   let v09 :=
@@ -294,8 +308,9 @@ Definition judge (p : str) (sfx : option str) (rules : list rule) (expires : lis
      a cacheable exchange produces the same bytes legitimately *)
   let forbidden' := match lr with
                     | Some r => if nonempty (rs_body r) then
-                                  if must_not_cache_spec strips_auth q r then rs_body r :: w_forbidden w
+                                  if must_not_cache_spec strips_auth q r then rs_body r :: hvalues (rs_hdrs r) (bytes "X-Session") ++ w_forbidden w
                                   else filter (fun b => negb (str_eqb b (rs_body r))) (w_forbidden w)
+                                else if must_not_cache_spec strips_auth q r then hvalues (rs_hdrs r) (bytes "X-Session") ++ w_forbidden w
                                 else w_forbidden w
                     | None => w_forbidden w
                     end in
@@ -320,7 +335,9 @@ Definition judge (p : str) (sfx : option str) (rules : list rule) (expires : lis
           if negb (st =? rs_status r) then verdict false "the client did not receive the origin's status"
           else if aborted && negb origin_lies then verdict false "the response was cut short of its declared length"
           else if negb bodyless && negb origin_lies && negb (str_eqb (cobs_body o) (rs_body r)) then verdict false "the client did not receive the origin's full body"
-          else if negb (forallb (fun kv => replay_exempt rule (fst kv) || strs_eqb (hvalues (cobs_hdrs o) (fst kv)) (map (fun v => trim v [32%N; 9%N]) (snd kv))) (rs_hdrs r))
+          else if negb (forallb (fun kv => replay_exempt rule (fst kv)
+                                           || (str_eqb (to_lower (fst kv)) (bytes "etag") && strs_eqb (hvalues (cobs_hdrs o) (fst kv)) (map (add_etag_suffix sfx) (firstn 1 (snd kv))))
+                                           || strs_eqb (hvalues (cobs_hdrs o) (fst kv)) (map (fun v => trim v [32%N; 9%N]) (snd kv))) (rs_hdrs r))
           then verdict false "an origin header was changed or lost"
           else if negb (forallb (fun kv => replay_exempt rule (fst kv) || hhas (rs_hdrs r) (fst kv) || str_eqb (to_lower (fst kv)) (bytes "content-type")) (cobs_hdrs o))
           then verdict false "the response carries a header neither the origin sent nor rrrouter documents"
@@ -394,15 +411,53 @@ Definition judge (p : str) (sfx : option str) (rules : list rule) (expires : lis
           end
       | None => v_ok
       end in
+  (* C11 end to end: the answer must have been generated for this request's own destination.
+     (Scripts are static in these histories, so the destination's current answer is the reference.) *)
+  let v11 :=
+      match fst (rules_match rules (req_scheme_of q) (drop_port (q_host q)) (q_uri q) (q_method q)) with
+      | Some (_, r, t) =>
+        if negb is_get || negb plain || negb (nonempty (r_cache r)) then v_ok else
+        let start := parse_url (out_url t (q_query q)) in
+        let expected := if r_restart r then spec_follow 14 (w_script w) start [url_string start]
+                        else match script_first (w_script w) (u_host start) with
+                             | Some (BResp fr) => WFinal fr
+                             | _ => WUnclear
+                             end in
+        let cached_hosts := map (fun r' => url_host (r_dest r')) (filter (fun r' => nonempty (r_cache r')) rules) in
+        let kf := ""%string in   (* F11 is repaired (fix: 15c2c84): nothing is excused *)
+        match expected with
+        | WFinal fr =>
+          if str_eqb (cobs_kind o) (bytes "origin") && (cobs_status o =? 200) && (rs_status fr =? 200)
+             && negb (str_eqb (cobs_body o) (rs_body fr))
+          then verdict_kf false "the client received a response that was generated for a different resource" kf
+          else v_ok
+        | _ => v_ok
+        end
+      | None => v_ok
+      end in
+  (* C01 over a sequence of requests on one server: each is routed on its own merits *)
+  let v01 :=
+      let choice := proxy_choice rules (cobs_log o) in
+      if str_eqb (cobs_kind o) (bytes "recovered") || str_eqb (cobs_kind o) (bytes "bare") then v_ok
+      else if negb (choice_ok rules (req_scheme_of q) (q_host q) (q_uri q) (q_method q) choice)
+      then verdict false "the request was not served by the first matching enabled rule"
+      else match choice with
+           | None => if (cobs_status o =? 404) || (cobs_status o =? 407) then v_ok
+                     else verdict false "no proxy rule served the request but the answer is not 404"
+           | Some _ => if (cobs_status o =? 404) && str_eqb (cobs_kind o) (bytes "error-json")
+                       then verdict false "a proxy rule was contacted but the client got rrrouter's 404" else v_ok
+           end in
   let v_done := if str_eqb (cobs_kind o) (bytes "no-response")
                 then verdict false "the request never completed (unbounded internal recursion against the origin)" else v_ok in
   let v := if str_eqb p (bytes "C08") then first_fail [v_done; v08]
            else if str_eqb p (bytes "C07") then v07
-           else if str_eqb p (bytes "C10") then first_fail [v10; v10b]
+           else if str_eqb p (bytes "C10") then first_fail [v10; v10b; v10c; v10d]
            else if str_eqb p (bytes "C09") then first_fail [v09; v09b]
            else if str_eqb p (bytes "C05") then first_fail [v_done; v05]
            else if str_eqb p (bytes "C15") then v15
            else if str_eqb p (bytes "C18") then v18
+           else if str_eqb p (bytes "C01") then v01
+           else if str_eqb p (bytes "C11") then v11
            else v_ok in
   (v, mkW now sc' store' (cobs_disk o) forbidden').
 
